@@ -1,5 +1,5 @@
 (* Props/C09.v — property C09: virtual easy samples behave like materialised extreme scores. Statements only. *)
-From SA Require Import Model.Symmetry Model.Auc Model.Threshold Proofs.SymmetryFacts Proofs.MaterialiseAucFacts Proofs.MaterialiseThrFacts Proofs.MaterialisePoolFacts.
+From SA Require Import Model.Symmetry Model.Auc Model.Threshold Model.Harness Proofs.SymmetryFacts Proofs.MaterialiseAucFacts Proofs.MaterialiseThrFacts Proofs.MaterialisePoolFacts Proofs.MaterialisePartialAucFacts.
 Open Scope Q_scope.
 
 (* Confusion matrices: for every Scores object with k, m >= 0 easy samples, every configuration and
@@ -82,8 +82,20 @@ Theorem C09_thresholds_pooled_metrics_partial :
 Proof. exact mat_thresholds_pooled_metrics. Qed.
 Print Assumptions C09_thresholds_pooled_metrics_partial.
 
-(* _partial: equality of PARTIAL AUC is not a theorem here; it is checked on the implementation on every run
-   (harness/props/C09.py: 1e-12). *)
+(* Partial AUC: for every window 0 <= lower <= upper <= 1 (on or off the rate grid) the object with virtual easy
+   samples and the object in which they are actual scores beyond all scored samples have the same partial AUC, when
+   no value is shared between the two classes (with cross-class ties the partial AUC cuts a diagonal segment of the
+   ROC and is compared on the implementation only; the FULL AUC above needs no such hypothesis).  Any carrier. *)
+Theorem C09_partial_auc :
+  forall (isD : Q -> Prop) (succ pred : Q -> Q), carrier isD succ pred ->
+  forall (s : scores) (ppos pneg lower upper : Q),
+  wf s -> pos s <> [] -> neg s <> [] -> (0 <= easy_pos s)%Z -> (0 <= easy_neg s)%Z ->
+  Forall isD (pos s ++ neg s) -> isD ppos -> isD pneg ->
+  (forall p n, In p (pos s) -> In n (neg s) -> ~ p == n) -> beyond_all s ppos pneg ->
+  0 <= lower -> lower <= upper -> upper <= 1 ->
+  auc succ pred (materialise s ppos pneg) lower upper AFpr ATpr == auc succ pred s lower upper AFpr ATpr.
+Proof. exact materialise_partial_auc. Qed.
+Print Assumptions C09_partial_auc.
 
 (* the hypotheses are satisfiable: binary64 neighbours, 2 easy positives, 1 easy negative; all four metrics at
    targets whose materialised threshold lies inside the scored range *)
@@ -93,6 +105,7 @@ Example C09_thresholds_example :
   match threshold_at succ64 pred64 MFnr (materialise s (9#1) (-5#1)) (3#10) Linear with Ret a => Qeqb a (5#2) = true | _ => False end /\
   match threshold_at succ64 pred64 MFnr s (3#10) Linear with Ret a => Qeqb a (5#2) = true | _ => False end /\
   beyond_all s (9#1) (-5#1) /\
+  Qeqb (auc succ64 pred64 (materialise s (9#1) (-5#1)) (1#8) (7#10) AFpr ATpr) (auc succ64 pred64 s (1#8) (7#10) AFpr ATpr) = true /\
   (forall mt, In mt [MTpr; MFnr; MTnr; MFpr; MTopr; MTonr] ->
      match threshold_at succ64 pred64 mt (materialise s (9#1) (-5#1)) (1#2) Linear, threshold_at succ64 pred64 mt s (1#2) Linear with
      | Ret a, Ret b => Qeqb a b = true | _, _ => False end).
@@ -101,7 +114,25 @@ Proof.
   split; [split; repeat constructor; reflexivity|].
   split; [vm_compute; reflexivity|]. split; [vm_compute; reflexivity|].
   split; [split; [|split]; [repeat constructor; reflexivity | repeat constructor; reflexivity | reflexivity]|].
+  split; [vm_compute; reflexivity|].
   intros mt H. cbn [In] in H. repeat (destruct H as [<-|H]; [vm_compute; reflexivity|]). destruct H.
+Qed.
+
+(* non-vacuity of the partial-AUC theorem: an object without cross-class ties, toy carrier (integers, +-1) *)
+Example C09_partial_auc_example :
+  let s := mk_scores [2#1; 3#1; 6#1] [1#1; 4#1; 5#1] 2 1 Pos Neg true in
+  wf s /\ beyond_all s (9#1) (-5#1) /\ (forall p n, In p (pos s) -> In n (neg s) -> ~ p == n) /\
+  Forall isInt (pos s ++ neg s) /\
+  Qeqb (auc (fun x => x + 1) (fun x => x - 1) (materialise s (9#1) (-5#1)) (1#8) (7#10) AFpr ATpr)
+       (auc (fun x => x + 1) (fun x => x - 1) s (1#8) (7#10) AFpr ATpr) = true.
+Proof.
+  split; [split; repeat constructor; cbn; discriminate|].
+  split; [split; [|split]; [repeat constructor; reflexivity | repeat constructor; reflexivity | reflexivity]|].
+  split.
+  - intros p n Hp Hn. cbn in Hp, Hn.
+    repeat (destruct Hp as [<-|Hp]); try contradiction;
+      repeat (destruct Hn as [<-|Hn]); try contradiction; intro E; discriminate E.
+  - split; [repeat constructor; match goal with |- isInt ?q => exists (Qnum q); reflexivity end|vm_compute; reflexivity].
 Qed.
 
 Example C09_example :
